@@ -4,6 +4,9 @@ import (
 	"fmt"
 	"hash/fnv"
 	"io"
+	"strings"
+
+	"verifharness/sim"
 
 	"verifharness/monitor"
 )
@@ -14,13 +17,41 @@ type CaseSpec struct {
 	Seed    int64
 	Index   int
 	Pair    string // "" | "c11" | "c12" : two-run comparison cases
+	CallsPerScan *[]int // when set, receives the number of faultable calls of every scan
+	Fault   string // "" | "s<scan>:i<call>:k<kind>[:i<call>:k<kind>]" : failures injected at call indexes of one scan
 }
 
 func (c CaseSpec) ID() string {
+	id := fmt.Sprintf("%s:%d:%d", c.Profile, c.Seed, c.Index)
 	if c.Pair != "" {
-		return fmt.Sprintf("%s+%s:%d:%d", c.Profile, c.Pair, c.Seed, c.Index)
+		id = fmt.Sprintf("%s+%s:%d:%d", c.Profile, c.Pair, c.Seed, c.Index)
 	}
-	return fmt.Sprintf("%s:%d:%d", c.Profile, c.Seed, c.Index)
+	if c.Fault != "" {
+		id += "@" + c.Fault
+	}
+	return id
+}
+
+// FaultSpec renders an injection plan for CaseSpec.Fault.
+func FaultSpec(scan int, idx []int, kinds []sim.FaultKind) string {
+	s := fmt.Sprintf("s%d", scan)
+	for i := range idx {
+		s += fmt.Sprintf(":i%d:k%d", idx[i], int(kinds[i]))
+	}
+	return s
+}
+
+func parseFault(f string) (scan int, plan *sim.FaultPlan) {
+	plan = &sim.FaultPlan{ByIndex: map[int]sim.FaultKind{}}
+	parts := strings.Split(f, ":")
+	fmt.Sscanf(parts[0], "s%d", &scan)
+	for i := 1; i+1 < len(parts); i += 2 {
+		var idx, k int
+		fmt.Sscanf(parts[i], "i%d", &idx)
+		fmt.Sscanf(parts[i+1], "k%d", &k)
+		plan.ByIndex[idx] = sim.FaultKind(k)
+	}
+	return
 }
 
 func (c CaseSpec) historySeed() int64 {
@@ -49,8 +80,18 @@ func RunCase(c CaseSpec, rep *monitor.Report, trace io.Writer) (scans int, err e
 			fmt.Fprintf(trace, "  group %d: %+v nodeCPU=%d nodeMem=%d regLag=%v asg=%+v\n", gi, g.Opts, g.NodeCPU, g.NodeMem, g.RegLag, *run.Env.ASGOf(gi))
 		}
 	}
+	fscan, fplan := -1, (*sim.FaultPlan)(nil)
+	if c.Fault != "" {
+		fscan, fplan = parseFault(c.Fault)
+	}
 	for s := 0; s < k.Scans; s++ {
-		run.Step(s)
+		if s == fscan {
+			run.nextFaults = fplan
+		}
+		sc := run.Step(s)
+		if c.CallsPerScan != nil {
+			*c.CallsPerScan = append(*c.CallsPerScan, sc.Rec.FaultCalls)
+		}
 	}
 	return k.Scans, nil
 }
